@@ -514,6 +514,22 @@ def make_handler(case, log, dest_port):
             event.assoc.release()
             log.add("release-returned", 0)
             return fallback()
+        if case.get("file_action") and dimse == "C-STORE":
+            # chunked-receive mode: what a storing handler does with the temporary file the data set was written to
+            import os
+            import shutil
+            path = getattr(event, "dataset_path", None)
+            act = case["file_action"]
+            log.add("file-" + act, 1 if path and os.path.exists(str(path)) else 0)
+            if path and os.path.exists(str(path)):
+                if act == "delete":
+                    os.unlink(str(path))
+                elif act == "move":
+                    shutil.move(str(path), str(path) + ".archived")
+                    os.unlink(str(path) + ".archived")
+                elif act == "read":
+                    with open(str(path), "rb") as f_:
+                        f_.read()
         if kind == "ret-raw":
             log.add("return")
             return build_raw(h["raw"])
@@ -722,6 +738,17 @@ def run_scenario(case):
     with _SCP_TAP["lock"]:
         _SCP_TAP["log"] = []
     log = HLog()
+    from pynetdicom import _config
+    prev_chunked = _config.STORE_RECV_CHUNKED_DATASET
+    _config.STORE_RECV_CHUNKED_DATASET = bool(case.get("recv_chunked"))
+    try:
+        return _run_scenario(case, svc, dimse, ts, log)
+    finally:
+        _config.STORE_RECV_CHUNKED_DATASET = prev_chunked
+
+
+def _run_scenario(case, svc, dimse, ts, log):
+    from pynetdicom import evt
     obs = dict(msgs=[], subops=[], end=None, abort=None, live=None, hlog=None, inconclusive=None, accepted=None,
                release_rsp=None)
     all_ts = list(TS.values())
@@ -1187,8 +1214,19 @@ def _assign_exception_classes(cases, seed, pid, tier):
     return cases
 
 
+def _assign_chunked_receive(cases, seed, pid, tier):
+    """Half of the C-STORE requests are received in chunked mode, with a handler that leaves / reads / moves / deletes the file."""
+    from .common import rng_for
+    rng = rng_for(seed, pid, "recv-chunked", tier)
+    for c in cases:
+        if SERVICES[c["svc"]]["dimse"] == "C-STORE" and rng.random() < 0.5:
+            c["recv_chunked"] = True
+            c["file_action"] = rng.choice(["leave", "read", "move", "delete"])
+    return cases
+
+
 def gen_cases(tier, seed, pid, focus=None):
-    return _assign_exception_classes(_gen_cases(tier, seed, pid, focus), seed, pid, tier)
+    return _assign_chunked_receive(_assign_exception_classes(_gen_cases(tier, seed, pid, focus), seed, pid, tier), seed, pid, tier)
 
 
 def _gen_cases(tier, seed, pid, focus=None):
